@@ -17,6 +17,9 @@ def setup(variant, strategy=""):
         s += ["C 1 set $$secret beta-longer", "C 1 set $$other zzz", "C 1 create-user x xpwB", "C 1 set-permissions x rwix *|r q"]
     return s
 
+# {s} = the run's own secret value (alpha / beta-longer): rewriting it first makes the following versioned write stale
+ADMIN_OPS = [["set $$secret {s}", "set-safe $$secret 0 newsecret"], ["set-safe $$secret 0 newsecret"], ["set-safe $$secret 9 newsecret"], ["set $$secret changed"], ["remove $$secret"],
+             ["set $$secret {s}", "set $$secret {s}", "set-safe $$secret 1 {s}2"], ["set-safe $$other 0 o2"]]
 SESSIONS = {"dbtoken": ["SESS 2", "C 2 use-db t tok"], "usertoken": ["SESS 2", "C 2 use-db t u upw"]}
 
 def probes():
@@ -37,7 +40,7 @@ class C08(Spec):
                 "Nun.C08_token_irremovable_replicated", "Nun.C08_conflict_keys_not_secure", "Nun.C08_no_notice_for_secure_keys"]
     rule = ("pairs of servers that differ only in $$ contents (value and existence of $$secret/$$other, another user's token and permission list); "
             "the same non-admin command sequence (length 1-3, every command word of the parser x key arguments {$$token, $$user_x, $$permission_$x, $$secret, $secret, secret} and patterns {*, $$*, *$$}) "
-            "from a database-token and a user-token session runs on both; the probing session's replies and channel lines must be byte-identical and every $$ entry unchanged. "
+            "from a database-token and a user-token session runs on both, also with an administrator's own (stale-versioned, plain, removing) write to a $$ key in the middle of the session on databases of every strategy, before and after the session registers as arbiter / watches / lists keys; the probing session's replies and channel lines must be byte-identical and every $$ entry unchanged. "
             "non-trivial = at least one probe refused and one answered; distinct by trace hash")
 
     def corpus(self):
@@ -61,6 +64,18 @@ class C08(Spec):
             return c
         for sess in SESSIONS:
             for p in ps: cases.append(pair(sess, [p]))
+        # an administrator's own write to a $$ key happens WHILE the non-admin session is connected: whatever that write leaves
+        # behind (conflict registry entries, notices, watcher pushes) must not carry the $$ contents to the session, neither at once
+        # nor when it (re-)registers as arbiter, lists keys or reads afterwards
+        for sess in SESSIONS:
+            for strategy in ("", "newer", "arbiter"):
+                for adm in ADMIN_OPS:
+                    for pre in ([], ["arbiter"], ["watch $$secret"], ["arbiter", "watch $secret"]):
+                        for post in (["arbiter"], ["keys", "arbiter", "keys $conflicts*"], ["unwatch-all", "arbiter", "get $$secret"]):
+                            c = []
+                            for v in ("A", "B"):
+                                c += setup(v, strategy) + SESSIONS[sess] + [f"C 2 {p}" for p in pre] + [f"C 1 {a.replace('{s}', 'alpha' if v == 'A' else 'beta-longer')}" for a in adm] + [f"C 2 {p}" for p in post] + ["C 1 keys $$*"]
+                            cases.append(c)
         n2 = 1500 if tier == "quick" else 30000
         for _ in range(n2):
             sess = rng.choice(list(SESSIONS)); k = 2 + rng.below(2 if tier == "quick" else 5)
